@@ -1,5 +1,5 @@
 """Shared machinery of the lz4 verification checks (build, oracle, workers, evidence)."""
-import os, sys, json, hashlib, subprocess, time, fcntl, glob, shutil, random, re
+import os, sys, sys, json, hashlib, subprocess, time, fcntl, glob, shutil, random, re
 
 ROOT = os.path.dirname(os.path.dirname(os.path.dirname(os.path.abspath(__file__))))
 REPO = os.environ.get("VERIF_REPO", "/repo")
@@ -272,7 +272,7 @@ def md5(b):
 def write_evidence(pid, tier, seed, coverage, wall, violations, assumptions):
     # evidence/<id>.json describes runs against /repo itself; a run pointed at another copy of lz4 (VERIF_REPO, used to
     # try seeded breaking changes) or restricted to some case kinds (VERIF_KINDS, development aid) must not overwrite it
-    scratch = os.path.realpath(REPO) != "/repo" or bool(os.environ.get("VERIF_KINDS"))
+    scratch = os.path.realpath(REPO) != "/repo" or bool(os.environ.get("VERIF_KINDS")) or "--replay" in sys.argv
     evdir = os.path.join(BUILD, "evidence_scratch") if scratch else os.path.join(ROOT, "evidence")
     os.makedirs(evdir, exist_ok=True)
     ev = {"property_id": pid, "tier": tier, "seed": seed, "level": "proof",
